@@ -1,0 +1,45 @@
+//go:build verif
+
+package metadata
+
+// C13 (segment-selection guard): every rotated segment handed to a search,
+// and every column name collected for it, belongs to the requesting
+// organisation and overlaps the query time range.
+// Checked by /verif/bin/govc.  Comment-only file.
+
+//@ func (*SegmentMicroIndex).getAllColumnsRecSize
+//@   props C13
+//@   pure
+//@ end
+
+//@ func (*SegmentMicroIndex).getRecordCount
+//@   props C13
+//@   pure
+//@ end
+
+//@ spec overlaps(tr *dtu.TimeRange, lo uint64, hi uint64) bool = implies(tr.StartEpochMs <= tr.EndEpochMs && lo <= hi, lo <= tr.EndEpochMs && hi >= tr.StartEpochMs)
+
+//@ func FilterSegmentsByTime
+//@   props C13
+//@   requires timeRange != nil
+//@   site mapupdate retVal[index][smi.SegmentKey] #1:
+//@     assert [tenant] smi.OrgId == orgid
+//@     assert [overlap] overlaps(timeRange, smi.EarliestEpochMS, smi.LatestEpochMS)
+//@     assert [from-requested-index] haskey(globalMetadata.tableSortedMetadata, index)
+//@ end
+
+//@ func GetColumnsForTheIndexesByTimeRange
+//@   props C13
+//@   requires timeRange != nil
+//@   site mapupdate allColumns[col] #1:
+//@     assert [tenant] smi.OrgId == orgid
+//@     assert [overlap] overlaps(timeRange, smi.EarliestEpochMS, smi.LatestEpochMS)
+//@ end
+
+//@ func CollectColumnsForTheIndexesByTimeRange
+//@   props C13
+//@   requires timeRange != nil
+//@   site mapupdate resAllColumns[col] #1:
+//@     assert [tenant] smi.OrgId == orgid
+//@     assert [overlap] overlaps(timeRange, smi.EarliestEpochMS, smi.LatestEpochMS)
+//@ end
